@@ -1,3 +1,133 @@
-import NxModel.Bytes
-/-! driver stub for C08 (replaced when the property's model lands) -/
-def main : IO Unit := IO.println "stub C08"
+import NxModel.Prudp.PacketIO
+import NxModel.Prudp.Payload
+import NxModel.DriverUtil
+/-! line-protocol driver for the C08 reference (signatures, key chain, payload transformation, connection request)
+
+  v0ck cv key data                         -> <nat>
+  v0datasig sv key sk <packet> | v0sig sv key sk cs <packet> | v0connsig ip port          -> <hex>
+  v1sig key sk cs <packet> | v1connsig ip port | liteconnsig ip port                      -> <hex>
+  litesig key cs <packet>                                                                -> <hex> | none
+  v0emit sv cv fv key sk cs <packet> | v1emit key sk cs <packet> | liteemit key cs <packet> -> ok <hex>
+  modkey k | unrelinit k | unrelkey ukey pid session -> <hex> ;  subkeys k n -> <hex>,<hex>,…
+  pnew transport compression maxsub -> ok ; pkey k -> ok | err N
+  penc type flags sub pid session payload z -> ok <hex> | err N
+  pdec type flags sub pid session data <inflated-hex>|fail -> ok <hex> | err N
+  kerbenc key data | kerbdec key data -> ok <hex> | err N
+  connreq pidsize pid cid check sk ticket -> ok <hex> | err N ; connresp check -> <hex>
+  chkresp <check>|none data -> ok | err N
+-/
+open Nx Nx.Prudp
+
+def natsOf (l : List String) : Option (List Nat) := l.mapM String.toNat?
+
+def step (st : PayState) (line : String) : PayState × String :=
+  match line.splitOn " " with
+  | ["v0ck", cv, key, data] =>
+    match parseV0Cfg "0" cv "0" key, fromHex data with
+    | some c, some d => (st, toString (v0Checksum c d))
+    | _, _ => (st, "bad-op")
+  | "v0datasig" :: sv :: key :: sk :: pk =>
+    match parseV0Cfg sv "0" "0" key, fromHex sk, parsePacket pk with
+    | some c, some sk, some p => (st, hexOut (v0DataSignature c p sk))
+    | _, _, _ => (st, "bad-op")
+  | "v0sig" :: sv :: key :: sk :: cs :: pk =>
+    match parseV0Cfg sv "0" "0" key, fromHex sk, fromHex cs, parsePacket pk with
+    | some c, some sk, some cs, some p => (st, hexOut (v0PacketSignature c p sk cs))
+    | _, _, _, _ => (st, "bad-op")
+  | ["v0connsig", ip, port] =>
+    match fromHex ip, port.toNat? with
+    | some ip, some port => (st, hexOut (v0ConnectionSignature ip port))
+    | _, _ => (st, "bad-op")
+  | "v1sig" :: key :: sk :: cs :: pk =>
+    match fromHex key, fromHex sk, fromHex cs, parsePacket pk with
+    | some key, some sk, some cs, some p => (st, hexOut (v1PacketSignature key p sk cs))
+    | _, _, _, _ => (st, "bad-op")
+  | ["v1connsig", ip, port] =>
+    match fromHex ip, port.toNat? with
+    | some ip, some port => (st, hexOut (v1ConnectionSignature ip port))
+    | _, _ => (st, "bad-op")
+  | ["liteconnsig", ip, port] =>
+    match fromHex ip, port.toNat? with
+    | some ip, some port => (st, hexOut (liteConnectionSignature ip port))
+    | _, _ => (st, "bad-op")
+  | "litesig" :: key :: cs :: pk =>
+    match fromHex key, fromHex cs, parsePacket pk with
+    | some key, some cs, some p => (st, showOptBytes (litePacketSignature key p cs))
+    | _, _, _ => (st, "bad-op")
+  | "v0emit" :: sv :: cv :: fv :: key :: sk :: cs :: pk =>
+    match parseV0Cfg sv cv fv key, fromHex sk, fromHex cs, parsePacket pk with
+    | some c, some sk, some cs, some p => (st, "ok " ++ hexOut (v0Emit c p sk cs))
+    | _, _, _, _ => (st, "bad-op")
+  | "v1emit" :: key :: sk :: cs :: pk =>
+    match fromHex key, fromHex sk, fromHex cs, parsePacket pk with
+    | some key, some sk, some cs, some p => (st, "ok " ++ hexOut (v1Emit key p sk cs))
+    | _, _, _, _ => (st, "bad-op")
+  | "liteemit" :: key :: cs :: pk =>
+    match fromHex key, fromHex cs, parsePacket pk with
+    | some key, some cs, some p => (st, "ok " ++ hexOut (liteEmit key p cs))
+    | _, _, _ => (st, "bad-op")
+  | ["modkey", k] =>
+    match fromHex k with
+    | some k => (st, hexOut (modifyKey k))
+    | none => (st, "bad-op")
+  | ["subkeys", k, n] =>
+    match fromHex k, n.toNat? with
+    | some k, some n => (st, ",".intercalate ((substreamKeys k n).map hexOut))
+    | _, _ => (st, "bad-op")
+  | ["unrelinit", k] =>
+    match fromHex k with
+    | some k => (st, hexOut (initUnreliableKey k))
+    | none => (st, "bad-op")
+  | ["unrelkey", k, pid, se] =>
+    match fromHex k, pid.toNat?, se.toNat? with
+    | some k, some pid, some se => (st, hexOut (makeUnreliableKey k pid se))
+    | _, _, _ => (st, "bad-op")
+  | ["pnew", t, c, m] =>
+    match t.toNat?, c.toNat?, m.toNat? with
+    | some t, some c, some m => (PayState.init t c m, "ok")
+    | _, _, _ => (st, "bad-op")
+  | ["pkey", k] =>
+    match fromHex k with
+    | some k =>
+      match st.setSessionKey k with
+      | .ok s => (s, "ok")
+      | .error e => (st, "err " ++ e.name)
+    | none => (st, "bad-op")
+  | ["penc", ty, fl, sub, pid, se, pl, z] =>
+    match natsOf [ty, fl, sub, pid, se], fromHex pl, fromHex z with
+    | some [ty, fl, sub, pid, se], some pl, some z =>
+      let (r, s) := st.encode ty fl sub pid se pl z
+      (s, showRes r)
+    | _, _, _ => (st, "bad-op")
+  | ["pdec", ty, fl, sub, pid, se, data, inf] =>
+    match natsOf [ty, fl, sub, pid, se], fromHex data, (if inf = "fail" then some none else (fromHex inf).map some) with
+    | some [ty, fl, sub, pid, se], some data, some inf =>
+      let (r, s) := st.decode ty fl sub pid se data (fun _ => inf)
+      (s, showRes r)
+    | _, _, _ => (st, "bad-op")
+  | ["kerbenc", k, d] =>
+    match fromHex k, fromHex d with
+    | some k, some d => (st, showRes (kerbEncrypt k d))
+    | _, _ => (st, "bad-op")
+  | ["kerbdec", k, d] =>
+    match fromHex k, fromHex d with
+    | some k, some d => (st, showRes (kerbDecrypt k d))
+    | _, _ => (st, "bad-op")
+  | ["connreq", ps, pid, cid, chk, sk, ticket] =>
+    match natsOf [ps, pid, cid, chk], fromHex sk, fromHex ticket with
+    | some [ps, pid, cid, chk], some sk, some ticket => (st, showRes (buildConnectionRequest ps pid cid chk sk ticket))
+    | _, _, _ => (st, "bad-op")
+  | ["connresp", chk] =>
+    match chk.toNat? with
+    | some chk => (st, hexOut (connectionResponse chk))
+    | none => (st, "bad-op")
+  | ["chkresp", chk, data] =>
+    match parseOptNat chk, fromHex data with
+    | some chk, some data =>
+      match checkConnectionResponse chk data with
+      | .ok _ => (st, "ok")
+      | .error e => (st, "err " ++ e.name)
+    | _, _ => (st, "bad-op")
+  | _ => (st, "bad-op")
+
+def main : IO Unit := runState (PayState.init 0 0 0) step
